@@ -77,6 +77,20 @@ class Observer:
                        "real": r.get("real", [])[:60], "model": r.get("model", [])[:60]})
         elif r.get("modOK") is False:
             c["stmt:covered-but-modOK-false(F6)"] = c.get("stmt:covered-but-modOK-false(F6)", 0) + 1
+        # C08: the static Free discipline under which the monitored C run is proved free of use-after-free /
+        # double free / leak (Props/C02Stmt.lean freeOK_sound_c) must hold of what MemoryAnalysis + comp_s emit
+        if r["status"] == "covered" and r.get("freeOK") is not None:
+            c["freeOK:" + str(r["freeOK"])] = c.get("freeOK:" + str(r["freeOK"]), 0) + 1
+            if r["freeOK"] is False:
+                try:
+                    f7 = ccpipe.free_before_alias_use(p._loopir_proc)
+                except BaseException:
+                    f7 = []
+                fs.append({"kind": "free-discipline", "key": ccpipe.KEY_F7 if f7 else "free-discipline:FreeOK-fails",
+                           "what": ("the emitted body violates the Free discipline FreeOK (free of a buffer that is still used, "
+                                    "freed twice, freed in another block, or not freed at block exit)"
+                                    + (f"; buffers freed before a use through a window alias: {f7}" if f7 else "")),
+                           "real": r.get("real", [])[:80]})
         c["procs-checked:" + tag] = c.get("procs-checked:" + tag, 0) + 1
         for f in fs:
             f.update({"program": self.rec["name"], "src": self.src, "hist": hist, "proc_text": str(p)[:3000]})
